@@ -34,6 +34,7 @@ def run(repo, run, tier):
     callbacks_must_run(repo, run, m)
     first_attempt_uses_given_step(repo, run)
     facade_leaves_dt_alone(repo, run)
+    who_stores_dt(repo, run)
 
 
 def who_calls(repo, run):
@@ -366,3 +367,25 @@ def facade_leaves_dt_alone(repo, run):
     for st in bad:
         run.report("C20.9", DS, st, "solve_ivp assigns the system's dt itself (`%s`): a step size assigned by a user callback during the preceding integrate() call is overwritten before the "
                    "next call uses it" % src(st)[:70])
+
+
+# ------------------------------------------------------------------------------------------------
+def who_stores_dt(repo, run):
+    """'a step size assigned by a callback is the one used for the next step': a callback may, after assigning dt, touch other settings (tolerances, kick variables, the
+    method): those setters rebuild the integrator.  None of them -- and nothing they call -- may store the step size; only the constructor, the dt setter, reset(),
+    integrate() and the orientation helper do."""
+    rid = run.rule("C20.10", "who-may-write: the system's step size (self.dt / self.__dt) is stored only by __init__, the dt setter, reset(), integrate() and __fix_dt_dir",
+                   floor=4)
+    OWNERS = {"OdeSystem.__init__", "OdeSystem.dt@setter", "OdeSystem.reset", "OdeSystem.integrate", "OdeSystem.__fix_dt_dir"}
+    for q, fn in repo.functions(DS):
+        if not q.startswith("OdeSystem."):
+            continue
+        sts = [st for st in walk_no_nested(fn) if isinstance(st, (ast.Assign, ast.AugAssign)) and any(
+            is_self_attr(x, "dt") or is_self_attr(x, "__dt") for t in (st.targets if isinstance(st, ast.Assign) else [st.target]) for x in ast.walk(t) if isinstance(getattr(x, "ctx", None), ast.Store))]
+        if not sts:
+            continue
+        ok = q in OWNERS
+        run.judged(rid, "%s stores the step size (%d store(s))" % (q, len(sts)), ok=ok)
+        if not ok:
+            run.report("C20.10", DS, sts[0], "%s stores the system's step size: it runs whenever a tolerance, the kick variables or the method is set (also from a step callback), so a "
+                       "step size the callback assigned just before is silently replaced and is not the one used for the next step" % q)
